@@ -18,5 +18,6 @@ ResetRec ==
 SimInit == Init /\ hist = <<ResetRec>>
 SimNext == /\ Next
            /\ hist' = IF op'.name \in {"set", "get"} THEN Append(hist, LogRec(op', clock')) ELSE hist
-SimDump == Len(hist) # SimDepth \/ PrintT("T" \o ToJson(hist))
+\* printed once per behaviour: in the state whose step appended record number SimDepth
+SimDump == ~(Len(hist) = SimDepth /\ op.name \in {"set", "get"}) \/ PrintT("T" \o ToJson(hist))
 =============================================================================
